@@ -68,7 +68,9 @@ def pytest_configure(config):
                                 options={k: str(v)[:40] for k, v in kw.items() if k not in ("spec",)},
                                 nstore=sum(1 for e in doc["events"] if e["ev"] in ("setcall", "getcall") and e["data"]))
                     with open(os.path.join(base, "docs", f"{wid}-{_state['n']:05d}.json"), "w") as f:
-                        json.dump(dict(meta=meta, doc=doc), f)
+                        aw = [dict(k="awrite", arr=e["arr"], vshape=e["vshape"], rshape=e.get("rshape"), dims=e.get("dims"))
+                              for e in evs if e["k"] == "awrite"]
+                        json.dump(dict(meta=meta, doc=doc, plan=plan, awrites=aw), f)
             except Exception as e:   # never break a test
                 with open(os.path.join(base, "docs", f"{wid}-errors.txt"), "a") as f:
                     f.write(f"{_state['test']}: {e!r}\n")
